@@ -1,0 +1,10 @@
+//! Verification facade, only compiled with the cargo feature `verif` (off by default).
+//!
+//! Exposes the real bundle factory of the executor to the checks in `/verif/harness`. The
+//! wrappers live next to the private items (`executor::verif_hooks`) and only forward to them.
+
+pub use crate::executor::verif_hooks::{
+    PushRefusal,
+    VerifBundle,
+    VerifBundleFactory,
+};
